@@ -361,6 +361,13 @@ class SetAlg:
                 return None
         mapping = self._match_pattern(pat, elt, e)
         if mapping is None:
+            # image rule: e = elt[pat := x] for some term x  =>  (x in `it` and conds[x])  implies  e in {elt for pat in it if conds}.
+            # The converse needs injectivity, so the opaque membership atom stays as the other disjunct.
+            sub = _unify(elt, e, {s for s in subterms(pat) if s[0] == "var"})
+            if sub is not None and pat[0] == "var" and pat in sub:
+                x = sub[pat]
+                opaque = ("atom", ("in", e, self.canon_opaque(("comp", "set", elt, gens))))
+                return f_or(f_and(self.member(x, it), *[self.cond(subst(c, {pat: x})) for c in conds]), opaque)
             return None
         base = self.member(e, it)
         cs = [self.cond(subst(c, mapping)) for c in conds]
@@ -429,6 +436,10 @@ class SetAlg:
             return f_or(f_and(ci, self.cond(c[2])), f_and(f_not(ci), self.cond(c[3])))
         if h == "iter-elem" and c[1][0] == "var":
             return self.member(c[1], c[2])
+        if h in ("any", "all") and c[1][0] == "comp" and c[1][2][0] == ("or" if h == "any" else "and"):
+            # ∃x (A ∨ B) = ∃x A ∨ ∃x B ;  ∀x (A ∧ B) = ∀x A ∧ ∀x B
+            parts = [self.cond((h, ("comp", c[1][1], b, c[1][3]))) for b in c[1][2][1:]]
+            return f_or(*parts) if h == "any" else f_and(*parts)
         if h in ("any", "all") and c[1][0] == "comp" and len(c[1][3]) == 1:
             pat, it, conds = c[1][3][0]
             lit = self.strip(it)
@@ -527,6 +538,25 @@ def formula_key(f: Formula) -> Any:
     if len(atoms) > 12:
         return ("FORMULA", repr(f))
     return (tuple(atoms), table(f, atoms))
+
+
+def _unify(pattern: Any, target: Any, pvars: set, acc: dict | None = None) -> dict | None:
+    """One-way matching: a substitution of the pattern variables that makes `pattern` equal to `target`."""
+    if acc is None:
+        acc = {}
+    if isinstance(pattern, tuple) and is_term(pattern) and pattern in pvars:
+        if pattern in acc:
+            return acc if acc[pattern] == target else None
+        acc[pattern] = target
+        return acc
+    if isinstance(pattern, tuple):
+        if not isinstance(target, tuple) or len(pattern) != len(target):
+            return None
+        for a, b in zip(pattern, target):
+            if _unify(a, b, pvars, acc) is None:
+                return None
+        return acc
+    return acc if pattern == target else None
 
 
 def _mentions_var(g: Any, v: Term) -> bool:
